@@ -106,10 +106,13 @@ type Rec struct {
 // direction. One goroutine reads; writes are serialised by a mutex so that
 // header blocks reach the wire in the order they were encoded.
 type Endpoint struct {
-	Name   string
-	client bool
-	rw     io.ReadWriteCloser
-	fr     *http2.Framer
+	Name    string
+	client  bool
+	rw      io.ReadWriteCloser
+	fr      *http2.Framer // writes
+	rd      *http2.Framer // parses the frames readFrame hands it
+	rbuf    bytes.Buffer
+	maxFrag int // largest header block fragment put in one frame
 
 	wmu  sync.Mutex
 	enc  *hpack.Encoder
@@ -147,6 +150,10 @@ func NewEndpoint(name string, client bool, rw io.ReadWriteCloser) *Endpoint {
 	// this endpoint reassembles header blocks itself; the x/net Framer of this
 	// vintage rejects CONTINUATION after PUSH_PROMISE otherwise
 	e.fr.AllowIllegalReads = true
+	e.rd = http2.NewFramer(io.Discard, &e.rbuf)
+	e.rd.SetMaxReadFrameSize(1<<24 - 1)
+	e.rd.AllowIllegalReads = true
+	e.maxFrag = MaxFragment
 	e.enc = hpack.NewEncoder(&e.ebuf)
 	e.dec = hpack.NewDecoder(4096, nil)
 	e.rec.Streams = map[uint32][]Event{}
@@ -333,7 +340,23 @@ func (e *Endpoint) readLoop() {
 		if held {
 			<-gate
 		}
-		f, err := e.fr.ReadFrame()
+		f, bare, err := e.readFrame()
+		if bare != nil {
+			e.mu.Lock()
+			e.rec.Frames++
+			if pend != nil {
+				e.rec.Foreign = append(e.rec.Foreign, fmt.Sprintf("HEADERS on stream %d inside the header block of stream %d", bare.stream, pend.stream))
+			}
+			if bare.frames == 1 {
+				e.completeBlock(bare)
+			} else {
+				bare.frames = 1
+				pend = bare
+			}
+			e.notifyLocked()
+			e.mu.Unlock()
+			continue
+		}
 		if err != nil {
 			if se, ok := err.(http2.StreamError); ok {
 				e.mu.Lock()
@@ -443,6 +466,59 @@ func (e *Endpoint) readLoop() {
 			e.WriteWindowUpdate(credit.Stream, uint32(credit.FlowLen))
 		}
 	}
+}
+
+// readFrame reads one frame. A HEADERS frame that carries no header block
+// fragment octets (legal; what a relay writes for a block without fields) is
+// returned as a pendingBlock, frames = 1 if END_HEADERS is set and 0 otherwise:
+// the x/net Framer refuses such a frame as a matter of policy. Everything
+// else is parsed by x/net.
+func (e *Endpoint) readFrame() (http2.Frame, *pendingBlock, error) {
+	var hdr [9]byte
+	if _, err := io.ReadFull(e.rw, hdr[:]); err != nil {
+		return nil, nil, err
+	}
+	length := int(hdr[0])<<16 | int(hdr[1])<<8 | int(hdr[2])
+	payload := make([]byte, length)
+	if _, err := io.ReadFull(e.rw, payload); err != nil {
+		if err == io.EOF {
+			err = io.ErrUnexpectedEOF
+		}
+		return nil, nil, err
+	}
+	if http2.FrameType(hdr[3]) == http2.FrameHeaders {
+		flags := http2.Flags(hdr[4])
+		p, padLen, ok := payload, 0, true
+		if flags.Has(http2.FlagHeadersPadded) {
+			if len(p) < 1 {
+				ok = false
+			} else {
+				padLen, p = int(p[0]), p[1:]
+			}
+		}
+		var prio *Prio
+		if ok && flags.Has(http2.FlagHeadersPriority) {
+			if len(p) < 5 {
+				ok = false
+			} else {
+				dep := binary.BigEndian.Uint32(p[:4])
+				prio = &Prio{Dep: dep &^ (1 << 31), Excl: dep&(1<<31) != 0, Weight: p[4]}
+				p = p[5:]
+			}
+		}
+		if ok && len(p)-padLen == 0 {
+			pb := &pendingBlock{kind: "H", stream: binary.BigEndian.Uint32(hdr[5:]) &^ (1 << 31), end: flags.Has(http2.FlagHeadersEndStream), prio: prio}
+			if flags.Has(http2.FlagHeadersEndHeaders) {
+				pb.frames = 1
+			}
+			return nil, pb, nil
+		}
+	}
+	e.rbuf.Reset()
+	e.rbuf.Write(hdr[:])
+	e.rbuf.Write(payload)
+	f, err := e.rd.ReadFrame()
+	return f, nil, err
 }
 
 // caller holds e.mu
@@ -563,21 +639,22 @@ func (e *Endpoint) encode(fields []Field) []byte {
 
 // splitAt cuts block at the given offsets (taken modulo the block length,
 // sorted, deduplicated): len(result) >= 1.
-func split(block []byte, cuts []int) [][]byte {
+func split(block []byte, cuts []int, maxFrag int) [][]byte {
 	var out [][]byte
 	for _, part := range splitAt(block, cuts) {
 		// a sender stays below the default maximum frame size (room is left for
 		// the pad length octet, padding and the priority section)
-		for len(part) > MaxFragment {
-			out = append(out, part[:MaxFragment])
-			part = part[MaxFragment:]
+		for len(part) > maxFrag {
+			out = append(out, part[:maxFrag])
+			part = part[maxFrag:]
 		}
 		out = append(out, part)
 	}
 	return out
 }
 
-// MaxFragment is the largest header block fragment an endpoint puts in one frame.
+// MaxFragment is the largest header block fragment an endpoint puts in one frame
+// unless SetMaxFragment says otherwise.
 const MaxFragment = 16000
 
 func splitAt(block []byte, cuts []int) [][]byte {
@@ -631,14 +708,35 @@ type HeadersSpec struct {
 	Prio      *Prio // nil = no priority section
 	Pad       int   // <0 no PADDED flag; 0..255 pad length
 	Cuts      []int // block offsets where a CONTINUATION starts
+	// Raw, if not nil, is sent as the header block instead of encoding Fields (which
+	// must then describe what Raw decodes to, e.g. nothing for a bare table size update).
+	Raw []byte
 }
+
+// SetMaxFragment changes the largest header block fragment this endpoint puts in
+// one frame (a peer that announced a larger SETTINGS_MAX_FRAME_SIZE allows more).
+func (e *Endpoint) SetMaxFragment(n int) {
+	e.wmu.Lock()
+	if n > 0 {
+		e.maxFrag = n
+	}
+	e.wmu.Unlock()
+}
+
+// TableSizeUpdate4096 is a header block that consists of nothing but the HPACK
+// instruction "dynamic table size update: 4096". It carries no field.
+var TableSizeUpdate4096 = []byte{0x3f, 0xe1, 0x1f}
 
 // WriteHeaders encodes the fields with this endpoint's encoder and writes
 // HEADERS (+ CONTINUATION) contiguously. It returns the number of frames.
 func (e *Endpoint) WriteHeaders(h HeadersSpec) (int, error) {
 	e.wmu.Lock()
 	defer e.wmu.Unlock()
-	parts := split(e.encode(h.Fields), h.Cuts)
+	block := h.Raw
+	if block == nil {
+		block = e.encode(h.Fields)
+	}
+	parts := split(block, h.Cuts, e.maxFrag)
 	var payload []byte
 	var flags http2.Flags
 	if h.Prio != nil {
@@ -682,7 +780,7 @@ func (e *Endpoint) continuations(stream uint32, parts [][]byte) error {
 func (e *Endpoint) WritePushPromise(stream, promised uint32, fields []Field, padLen int, cuts []int) (int, error) {
 	e.wmu.Lock()
 	defer e.wmu.Unlock()
-	parts := split(e.encode(fields), cuts)
+	parts := split(e.encode(fields), cuts, e.maxFrag)
 	var p [4]byte
 	binary.BigEndian.PutUint32(p[:], promised)
 	payload := append(p[:], parts[0]...)
